@@ -136,6 +136,11 @@ def run(ctx) -> None:
     for _ in range(ctx.pick(2500, 12000)):
         n = rng.choice([0, 1, 2, 3, 5, 8, 8, 40, ctx.pick(120, 400)])
         t = sorted({epoch(rng.choice(EDGE_DAYS), rng.randrange(0, 86400) if n > 8 else rng.choice([0, 1, 43200, 86399])) for _ in range(n)})
+        if t and rng.random() < 0.4:
+            # repeated instants (a depth cast): sorted, or in arbitrary order
+            t = sorted(t + [rng.choice(t) for _ in range(rng.randrange(1, 4))])
+            if rng.random() < 0.3:
+                rng.shuffle(t)
         n = len(t)
         x = [None if rng.random() < 0.15 else gen.dyadic(rng, 0, 6, 2) for _ in range(n)]
         zmode = rng.choice(["present", "some", "all-missing"])
